@@ -82,6 +82,7 @@ type Prov struct {
 	Params   []TypeID // CtxType allowed
 	Results  []TypeID
 	Err      bool `json:",omitempty"`
+	FuncVar  bool `json:",omitempty"` // Form func: declared as a package-level function variable, var NewX = func(...) ...
 	ErrAlias bool `json:",omitempty"` // the error result is spelled Failure (type Failure = error)
 	Variadic bool `json:",omitempty"` // last parameter is ...Elem(of slice type in Params)
 	Method   bool `json:",omitempty"` // Form ext: referenced as a method value of a package-level variable (pkg.Factory.Name)
@@ -100,19 +101,23 @@ type Elem struct {
 	H          uint32   `json:",omitempty"`
 	Literal    bool     `json:",omitempty"` // value: written as an untyped constant literal (not logged)
 	Set        string   `json:",omitempty"`
-	Paren      bool     `json:",omitempty"` // set: the reference is written in parentheses, (setaa)
+	Paren      bool     `json:",omitempty"` // the element is written in parentheses: (setaa), (kessoku.Provide(f))
+	Hoist      string   `json:",omitempty"` // non-set element kept in a package-level variable of this name and referenced through it
 	Inline     []Elem   `json:",omitempty"`
 }
 
 type SetDecl struct {
-	Name  string
-	Elems []Elem
+	Name    string
+	Elems   []Elem
+	Paren   bool   `json:",omitempty"` // var s = (kessoku.Set(...))
+	AliasOf string `json:",omitempty"` // var s = <other set variable> (no elements of its own)
 }
 
 type Injector struct {
 	Name  string
 	Want  TypeID
 	Elems []Elem
+	Form  string `json:",omitempty"` // spelling of the declaration: "" (var _ =) | typed | named | block | multi (shares one var statement with the next declaration)
 }
 
 type File struct {
@@ -367,12 +372,19 @@ func (u *Unit) PID() int {
 }
 
 func (c *Case) SetByName(name string) *SetDecl {
-	for fi := range c.Files {
-		for si := range c.Files[fi].Sets {
-			if c.Files[fi].Sets[si].Name == name {
-				return &c.Files[fi].Sets[si]
+	for hop := 0; hop < 8; hop++ {
+		var found *SetDecl
+		for fi := range c.Files {
+			for si := range c.Files[fi].Sets {
+				if c.Files[fi].Sets[si].Name == name {
+					found = &c.Files[fi].Sets[si]
+				}
 			}
 		}
+		if found == nil || found.AliasOf == "" {
+			return found
+		}
+		name = found.AliasOf // var s2 = s1: follow the alias to the set it names
 	}
 	return nil
 }
